@@ -441,6 +441,12 @@ var (
 		{motifEnq, motifDeqShort, {K: "ext", L: lref(-1), DurMs: 20}, {K: "adv", Ms: 20}, motifDeqLong, {K: "adv", Ms: 20}, motifDeqLong},
 		{motifEnq, motifEnq2, motifDeqShort, {K: "cancel", IDs: []string{"m0"}}, {K: "requeue", IDs: []string{"m0"}}, motifDeqLong, {K: "adv", Ms: 20}, motifDeqLong},
 	}
+	// an id is enqueued again after its earlier message was evicted or settled
+	motifsReuseID = [][]QOp{
+		{motifEnq, motifEnq2, {K: "enq", Items: []QItem{{ID: "m0", Route: "/a", Target: "pull", Payload: []byte{0x80, 0x80}}}}, motifDeqLong, {K: "ackb", Ls: []LRef{{K: -1}, {K: -2}, {K: -3}}}},
+		{motifEnq, motifDeqLong, {K: "ack", L: lref(-1)}, motifEnq2, {K: "enq", Items: []QItem{{ID: "m0", Route: "/a", Target: "pull", Payload: []byte{1}}}}, motifDeqLong},
+		{{K: "enq", Items: []QItem{{ID: "m0", Route: "/a", Target: "pull", RecvAgoMs: 1000}}}, {K: "stats"}, {K: "enq", Items: []QItem{{ID: "m0", Route: "/a", Target: "pull", Payload: []byte{2}}}}, motifDeqLong},
+	}
 	// delayed nack, future next_run_at, mixed readiness
 	motifsReady = [][]QOp{
 		{motifEnq, motifEnq2, motifDeqLong, {K: "nack", L: lref(-1), DurMs: 20}, {K: "nack", L: lref(-2), DurMs: 0}, {K: "deq", Route: "/a", N: 1}, {K: "adv", Ms: 10}, {K: "deq", Route: "/a", N: 5}, {K: "adv", Ms: 10}, {K: "deq", Route: "/a", N: 5}},
@@ -461,7 +467,8 @@ func baseWeights() map[string]int {
 func profileC02() qProfile {
 	return qProfile{name: "C02", backends: []string{"memory", "sqlite"}, depths: []int{0, 0, 1, 2, 3, 5},
 		drops: []string{"reject", "drop_oldest"}, retention: true, pressure: true, maxOps: 40,
-		weights: baseWeights(), padSingle: true, explicitTS: 15, blankIDs: true, deliveredOK: true}
+		weights: baseWeights(), padSingle: true, explicitTS: 15, blankIDs: true, deliveredOK: true,
+		motifs: append(append([][]QOp(nil), motifsReuseID...), motifsStale...)}
 }
 
 func profileC03() qProfile {
@@ -472,9 +479,9 @@ func profileC03() qProfile {
 	w["cancel"] = 3
 	w["requeue"] = 3
 	w["resume"] = 3
-	return qProfile{name: "C03", backends: []string{"memory", "sqlite"}, depths: []int{0, 0, 0, 5},
+	return qProfile{name: "C03", backends: []string{"memory", "sqlite"}, depths: []int{0, 0, 2, 5},
 		drops: []string{"reject", "drop_oldest"}, retention: false, maxOps: 40, weights: w,
-		padSingle: true, explicitTS: 5, blankIDs: true, deliveredOK: true, motifs: motifsExpiry}
+		padSingle: true, explicitTS: 5, blankIDs: true, deliveredOK: true, motifs: append(append([][]QOp(nil), motifsExpiry...), motifsReuseID...)}
 }
 
 func profileC04() qProfile {
